@@ -10,6 +10,9 @@ CHECKS = {
  "C08": dict(engine="iosim", category="fault_enumeration", design="DESIGN.md section 5 (C08)", technique="deterministic simulation: crash-point and single-fault enumeration over interposed file-system effects",
    text="Per sampled workload every boundary between two file-system effects is checked as a crash point and every effect is failed with every legal errno (plus short writes, raising tensors at every piece, raising callbacks); exhaustive over single faults per workload, workloads themselves sampled (scenarios: absent/foreign/re-save-over-self/symlink/sharded, serial and simulated-parallel).",
    note="kill -9 crash model on a real tmpfs (no power-loss reordering); cleanup effects never failed; 'new bytes' taken from a fault-free serial save of the same workload."),
+ "C07": dict(engine="iosim", category="exploration", design="DESIGN.md section 5 (C07)", technique="deterministic simulation: save / drop memory / reload durability round trip over the option grid, seeded schedules for parallel saves, injected tensor and FS faults",
+   text="Seeded exploration of (initializer kinds x dtypes x sizes x threshold x alignment x shard limit x workers x backend x naming) configurations; every run saves, drops all memory, reloads from disk only and compares names/dtypes/shapes/bytes with harness-generated payloads, then checks the layout rules on the recorded ranges; a fault batch checks tensor-object identity after a raising save.",
+   note="harness payloads are the reference; safetensors intra-file order and threshold equality are outside the statement and not checked; parallel saves run on stubbed threading primitives."),
 }
 NA = [
  ("C02", "pure function of the input proto: no schedule, clock, fault, crash point or history for a simulator to vary (DESIGN.md section 7)"),
